@@ -34,7 +34,7 @@ def truth(p):
                 acc_keeps.add(s["path"])
             elif s["k"] == "load":
                 acc_loads.add((s["path"], via_helper))
-            elif s["k"] in ("call", "ref"):
+            elif s["k"] in ("call", "ref") or (s["k"] == "nested_def" and s.get("fn")):
                 g = p["fns"][s["fn"]]
                 if g["data_path"] is not None:
                     acc_keeps.add(g["data_path"])
@@ -86,7 +86,7 @@ def truth(p):
             if s["k"] == "keep":
                 hs.add(s["path"])
                 takes_args = bool(p["fns"][s["fn"]]["params"])
-            elif s["k"] in ("call", "ref"):
+            elif s["k"] in ("call", "ref") or (s["k"] == "nested_def" and s.get("fn")):
                 g = p["fns"][s["fn"]]
                 takes_args = bool(g["params"])
                 if g["data_path"] is not None:
